@@ -48,7 +48,7 @@ def oracle_c20(real, snap, graph, i, c, ex, stderr):
     if ex not in (0, 1, 2, 3):
         first = stderr.strip().split("\n")[0][:160] if stderr.strip() else ""
         return "exit status %r: %s" % (ex, first)
-    if ex != 0 and not stderr.strip() and c["c"] not in ("gedit", "gcommit", "gamend", "gmerge", "greset"):
+    if ex != 0 and not stderr.strip() and c["c"] not in ("gedit", "gcommit", "gamend", "gmerge", "greset", "gconfig"):
         return "exit status %r without a diagnostic on stderr" % (ex,)
     return None
 
@@ -99,7 +99,7 @@ TRACK = {"published": True}
 
 
 def stg_opened(c, ex):
-    return c["c"] not in ("gedit", "gcommit", "gamend", "gmerge", "greset") and ex in (0, 2, 3)
+    return c["c"] not in ("gedit", "gcommit", "gamend", "gmerge", "greset", "gconfig") and ex in (0, 2, 3)
 
 
 def moved_by_stg(c, ex):
@@ -221,6 +221,33 @@ class LogOracle:
         # independent reading of the log (specification of C05: effective timeline / redo stack)
         if fail is None and c["c"] in ("undo", "redo") and ex == 0 and st is not None and len(log) >= 2:
             fail = self.check_against_log(real, snap, st, log, c)
+        # `stg reset <entry> [<patches>]`: the entry is read from the repository as it was before
+        # the command; a full reset restores it exactly, a partial one gives every named patch the
+        # recorded commit and - when it did not exist any more - the recorded hidden-ness, and
+        # removes named patches the entry does not have
+        if (fail is None and c["c"] == "reset" and ex == 0 and c.get("entry") is not None and st is not None
+                and old and len(self.history) >= 1 and self.history[-1][0] is not None):
+            tgt = real.r.git(["rev-parse", "--verify", "-q", "%s~%d" % (old[0], c["entry"])], check=False).stdout.strip()
+            ts = real.commit_info(tgt)["state"] if tgt else None
+            before = self.history[-1][0]
+            if ts is not None:
+                tsp = {k: v["oid"] for k, v in ts["patches"].items()}
+                if not c.get("ranges"):
+                    if (st["applied"], st["unapplied"], st["hidden"], cur[3]) != (ts["applied"], ts["unapplied"], ts["hidden"], tsp):
+                        fail = "reset did not restore the state of the entry it was given (%s)" % tgt[:8]
+                elif all(n in tsp for n in c["ranges"]):
+                    # (arguments are resolved in the ENTRY's stack, where an existing name wins; anything
+                    # else is a locator or a range and is left to the model)
+                    for n in c["ranges"]:
+                        if n not in st["applied"] and cur[3].get(n) != tsp[n]:
+                            # (a patch that was applied is pushed back, possibly onto another parent)
+                            fail = "partial reset: patch %r does not have the commit recorded in the entry" % n
+                        elif n not in before[3] and (n in ts["hidden"]) != (n in st["hidden"]):
+                            fail = ("partial reset: patch %r was re-created %s although the entry records it as %s"
+                                    % (n, "hidden" if n in st["hidden"] else "visible",
+                                       "hidden" if n in ts["hidden"] else "visible"))
+                        if fail:
+                            break
         changing = c["c"] in ("new", "push", "pop", "goto", "float", "sink", "delete", "hide", "unhide", "rename",
                               "commit", "uncommit", "clean", "spill")
         nlog = len(log) - len(old) if (self.prev_log is not None and False) else None
@@ -349,7 +376,7 @@ class DirtyOracle:
         if before is None:
             return None
         k = c["c"]
-        if k in ("gedit", "gcommit", "gamend", "gmerge", "greset", "refresh", "spill"):
+        if k in ("gedit", "gcommit", "gamend", "gmerge", "greset", "gconfig", "refresh", "spill"):
             return None
         if "hard" in c.get("flags", []):
             return None
@@ -557,7 +584,12 @@ def oracle_halt_keeps_patches(state):
             elif set(listed) != cur["P"]:
                 fail = "after the conflict halt the patch map and the lists disagree: %r vs %r" % (
                     sorted(cur["P"]), listed)
-            elif c["c"] not in ("delete", "commit", "clean") and not before <= set(listed):
+            elif c["c"] == "squash" and all(x in before for x in c.get("ranges") or []):
+                # the squashed patches are replaced by the new one; pushing back what lay above may conflict
+                if not before - set(c["ranges"]) <= set(listed):
+                    fail = "the conflict halt dropped patches the squash was not given: %r" % sorted(
+                        before - set(c["ranges"]) - set(listed))
+            elif c["c"] not in ("delete", "commit", "clean", "squash") and not before <= set(listed):
                 fail = "the conflict halt dropped patches from the stack: %r" % sorted(before - set(listed))
             elif all(x in before for x in (c.get("ranges") or []) + ([c["loc"]] if c.get("loc") else [])) and \
                     not set(prev["H"]) - set(c.get("ranges") or []) - ({c.get("loc")} if c.get("loc") else set()) <= set(cur["H"]):
@@ -669,6 +701,24 @@ def oracle_conflict_guard(state):
     return orc
 
 
+def oracle_conflicts_disallowed(state):
+    """C09: "with conflicts disallowed the conflicting patch stays unapplied and the tree stays
+    clean" - while stgit.push.allow-conflicts is false, no command that was not given
+    --conflicts=allow leaves unmerged entries behind (it may halt with status 3, but then with a
+    clean index and the conflicting patch unapplied)"""
+    def orc(real, snap, graph, i, c, ex, stderr):
+        fail = None
+        if c["c"] == "gconfig":
+            state["apc"] = c["apc"]
+        elif (state.get("apc", True) is False and c.get("conflicts") != "allow" and snap["unmerged"]
+              and not state.get("unmerged", False)):
+            fail = ("stgit.push.allow-conflicts is false and no --conflicts=allow was given, but the command left "
+                    "unmerged entries in the index")
+        state["unmerged"] = snap["unmerged"]
+        return fail
+    return orc
+
+
 # ----------------------------------------------------------------------------- running
 
 def _worker(args):
@@ -702,7 +752,7 @@ def build_oracles(names):
         elif n == "log":
             out.append(LogOracle())
         elif n == "c09":
-            out += [oracle_c09, oracle_conflict_guard({}), oracle_halt_keeps_patches({})]
+            out += [oracle_c09, oracle_conflict_guard({}), oracle_halt_keeps_patches({}), oracle_conflicts_disallowed({})]
         elif n == "prev":
             out.append(PrevOracle())
         elif n == "failkeeps":
